@@ -16,7 +16,7 @@ func XMultiSameMethod() *spec.Spec {
 
 // Extended returns the extended families (everything beyond the documented core combinations).
 func Extended(thorough bool) []*spec.Spec {
-	out := []*spec.Spec{XMultiSameMethod(), XCrossFile(), XTwoServiceFiles(), XTimestampCards(), XTimestampCardsFmt(), XEmptyOrders(), XOneofSiblings(), XSharedMethodHeader(), XQuotedHeaderTexts()}
+	out := []*spec.Spec{XMultiSameMethod(), XCrossFile(), XTwoServiceFiles(), XTimestampCards(), XTimestampCardsFmt(), XEmptyOrders(), XOneofSiblings(), XSharedMethodHeader(), XQuotedHeaderTexts(), XQuotedAnnotationValues()}
 	out = append(out, CtxSpecs()...)
 	out = append(out, RouteSpecs(thorough)...)
 	out = append(out, BindSpecs(thorough)...)
@@ -203,4 +203,16 @@ func XQuotedHeaderTexts() *spec.Spec {
 	f.Services[0].Comment = `Service "with" quotes and a \ backslash`
 	f.Messages[0].Comment = "line one\nline \"two\""
 	return withCell(spec.One("x_quoted_texts", f), "ext/unit=quoted_header_texts", "extended", "valid")
+}
+
+// XQuotedAnnotationValues: custom enum values and oneof discriminator values containing quotes and backslashes.
+func XQuotedAnnotationValues() *spec.Spec {
+	e := &spec.Enum{Name: "Mood", Values: []*spec.EnumValue{{Name: "MOOD_UNSPECIFIED", Num: 0, Custom: spec.Str(`so "so"`)}, {Name: "MOOD_UP", Num: 1, Custom: spec.Str(`up\north`)}, {Name: "MOOD_PLAIN", Num: 2, Custom: spec.Str("it's")}}}
+	f := &spec.File{Enums: []*spec.Enum{e}, Messages: []*spec.Message{
+		spec.M("TextContent", spec.F("body", "string")), spec.M("ImageContent", spec.F("url", "string")),
+		spec.M("Feeling", spec.F("id", "string"), spec.En("mood", "Mood"), spec.En("moods", "Mood").Rep()),
+		spec.M("Quoted", spec.F("id", "string"), spec.Msg("text", "TextContent").In("content").OV(`te"xt`), spec.Msg("image", "ImageContent").In("content").OV(`im\age`)).
+			WithOneof(&spec.Oneof{Name: "content", Config: true, Disc: "type", Flatten: true}),
+	}, Services: []*spec.Service{EchoService("QuotedValueService", "Feeling", "Quoted")}}
+	return withCell(spec.One("x_quoted_values", f), "ext/unit=quoted_annotation_values", "extended", "valid", "codec")
 }
